@@ -3,7 +3,7 @@
 from __future__ import annotations
 
 from ..rules import sqlemit, sqlplace
-from ..rules import structure, triviality
+from ..rules import mutation, structure, triviality
 from .common import new_run
 
 LEVEL = "other"
@@ -39,5 +39,6 @@ def check(model, tier):
     sqlplace.r08_2_compound_guard(ctx)
     triviality.r05_2_noop_predicates_agree(ctx, rule="R02.6")
     structure.r06_1_flags(ctx, rule="R02.7")
+    mutation.r09_4_no_shared_mutation(ctx)
     run.assume("within one SELECT the clauses act in the order WHERE -> ORDER BY -> select list -> DISTINCT -> OFFSET/LIMIT")
     return run
